@@ -311,7 +311,9 @@ def run_case(ck, rng, root, ci, tier):
 
 
 def run(prop, tier, seed, replay):
-    ck = Check(prop, tier, seed, kernels=KERNELS, theorems=THEOREMS, lean_modules=["YawVerif.Props.C01"], rule=RULE,
+    import plan_tie
+    ck = Check(prop, tier, seed, kernels=KERNELS + ["k_plan"], theorems=THEOREMS + plan_tie.THEOREMS,
+               lean_modules=["YawVerif.Props.C01", plan_tie.MODULE], rule=RULE,
                assumptions=["scipy KDTree.count_neighbors returns the exact weighted neighbour counts for the stored "
                             "float vectors (validated against the O(n^2) oracle)",
                             "astropy distances are evaluated independently by the oracle"])
@@ -321,6 +323,7 @@ def run(prop, tier, seed, replay):
     n_cases = 40 if tier == "quick" else 500
     root = C.scratch_root()
     try:
+        plan_tie.check_plan(ck, root)
         with C.Workers(1):
             for ci in range(n_cases):
                 run_case(ck, ck.rng, root, ci, tier)
